@@ -348,6 +348,17 @@ def run_history(ctx, rng, n):
                     parsed[text] = parser.parse(text)
                 except Exception:  # noqa: BLE001
                     parsed[text] = text
+            if params and rng.random() < 0.35:
+                # ... after an execution of the same object that is refused for its parameters (too few, too many, a missing name)
+                if isinstance(params, dict):
+                    wrong = {k: v for k, v in list(params.items())[:-1]}
+                else:
+                    wrong = rng.choice([list(params)[:-1], list(params) + [1]])
+                refused = outcome(conn, parsed[text], wrong)
+                ctx.count('obs.refused_executions')
+                if refused[0] != 'exc':
+                    problems.append(('c09.wrong_parameters_accepted', f'step {step} {text} executed with {show(wrong)} (statement has {len(params)} placeholders): accepted'))
+                    break
             a = outcome(conn, parsed[text], params)
             variants = [params]
             if params is not None and rng.random() < 0.7:
@@ -563,7 +574,7 @@ def replay(ctx, case):
 def finalize(merged):
     reasons = []
     c = merged['counters']
-    for k in ('obs.param_cases', 'obs.fold_cases', 'obs.histories', 'obs.digest_comparisons', 'obs.mode.parsed', 'obs.executemany'):
+    for k in ('obs.param_cases', 'obs.fold_cases', 'obs.histories', 'obs.digest_comparisons', 'obs.mode.parsed', 'obs.executemany', 'obs.refused_executions'):
         if c.get(k, 0) == 0:
             reasons.append(f'{k} == 0')
     if c.get('inconclusive.cold_process_failed', 0) or c.get('obs.cold_process_statements', 0) == 0:
